@@ -22,18 +22,16 @@ def crc32 (data : List UInt8) (seed : UInt32) : UInt32 := ~~~ (data.foldl crc32S
 
 /-- `while ((acc & 0xff00) != 0) acc = (acc & 0xff) + (acc >> 8);` (acc is uint16_t and never
 exceeds 0x1fe here, so two rounds are enough; the loop is modelled with that fuel) -/
-def fold8 (acc : Nat) : Nat :=
-  let a1 := if acc / 256 ≠ 0 then acc % 256 + acc / 256 else acc
-  if a1 / 256 ≠ 0 then a1 % 256 + a1 / 256 else a1
+def carry8 (acc : Nat) : Nat := if acc / 256 ≠ 0 then acc % 256 + acc / 256 else acc
+def fold8 (acc : Nat) : Nat := carry8 (carry8 acc)
 
 def sum8Acc (data : List UInt8) : Nat := data.foldl (fun acc b => fold8 (acc + b.toNat)) 0
 
 /-- `CalcCheckSum8` -/
 def sum8 (data : List UInt8) : UInt8 := ~~~ (UInt8.ofNat (sum8Acc data))
 
-def fold16 (acc : Nat) : Nat :=
-  let a1 := if acc / 65536 ≠ 0 then acc / 65536 + acc % 65536 else acc
-  if a1 / 65536 ≠ 0 then a1 / 65536 + a1 % 65536 else a1
+def carry16 (acc : Nat) : Nat := if acc / 65536 ≠ 0 then acc / 65536 + acc % 65536 else acc
+def fold16 (acc : Nat) : Nat := carry16 (carry16 acc)
 
 def sum16Acc : Nat → List UInt8 → Nat
   | acc, b0 :: b1 :: r => sum16Acc (fold16 (acc + (b0.toNat * 256 + b1.toNat))) r
